@@ -226,6 +226,12 @@ def main():
                     ("param-collect-positional-bad", lambda: ns["fp"](materialise(v), "bad"), True),
                     ("type", lambda: ns["T"](materialise(v)), False),
                     ("type-collect", lambda: ns["T"](materialise(v), context=ns["Options"](collect_errors=True).make_context()), False)]
+            if thorough:
+                # the same field under the conversion preferences (different converter branches)
+                for tag, kw in (("ne", dict(no_explicit_cast=True)), ("ndl", dict(no_data_loss=True)), ("both", dict(no_explicit_cast=True, no_data_loss=True)),
+                                ("exclude", dict(invalid_items="exclude", invalid_keys="exclude", invalid_values="exclude")),
+                                ("preserve", dict(invalid_items="preserve", invalid_keys="preserve", invalid_values="preserve"))):
+                    uses.append(("field-" + tag, (lambda kw: lambda: ns["C"].__from__({"x": materialise(v)}, options=ns["Options"](**kw)))(kw), False))
             from utype.parser.rule import LogicalType
             for use, fn, has_body in uses:
                 if use.startswith("type") and not isinstance(ns["T"], LogicalType):
